@@ -8,6 +8,8 @@ package main
 import (
 	"fmt"
 	"go/ast"
+	"go/constant"
+	"go/token"
 	"go/types"
 	"os"
 	"sort"
@@ -892,6 +894,274 @@ func ruleCfgWire(w *World, r *RuleResult) {
 		}
 		for _, s := range stores[f] {
 			d.add(cfgField(s.val) == src, "field/"+f, s.pos, "holds configuration field "+src+" on every path", "simulator field "+f+" holds the configuration's "+src+" on some constructor paths but "+s.val.Show()+" on others: the battle is not played with the configured value")
+		}
+	}
+	d.flush()
+}
+
+func init() {
+	register(&Rule{Name: "ALLOC.input", Min: 1, Doc: "the assembler sizes its allocations from the input, never from a configuration limit", Run: ruleAllocInput})
+}
+
+// ruleAllocInput: assembling takes time and memory proportional to the input.
+// A slice, map or channel made with a size taken from the configuration (the
+// maximum length, the core size) costs that much whatever the input is, and
+// panics for limits the configuration check accepts.  Every make in the
+// functions reachable from the assembler's entry point is an obligation.
+func ruleAllocInput(w *World, r *RuleResult) {
+	entry := w.LibFunc("CompileWarrior")
+	if entry == nil {
+		r.undecided("anchor", "-", "CompileWarrior not found")
+		return
+	}
+	reach := map[*ssa.Function]bool{}
+	var visit func(f *ssa.Function)
+	visit = func(f *ssa.Function) {
+		if f == nil || reach[f] || len(f.Blocks) == 0 || f.Pkg != w.SLib {
+			return
+		}
+		reach[f] = true
+		for _, b := range f.Blocks {
+			for _, in := range b.Instrs {
+				if ci, ok := in.(ssa.CallInstruction); ok {
+					visit(ci.Common().StaticCallee())
+					// states and helpers passed around as values
+					for _, a := range ci.Common().Args {
+						if fv, ok := a.(*ssa.Function); ok {
+							visit(fv)
+						}
+					}
+				}
+				for _, op := range in.Operands(nil) {
+					if fv, ok := (*op).(*ssa.Function); ok {
+						visit(fv)
+					}
+					if mc, ok := (*op).(*ssa.MakeClosure); ok {
+						if fv, ok := mc.Fn.(*ssa.Function); ok {
+							visit(fv)
+						}
+					}
+				}
+			}
+		}
+	}
+	visit(entry)
+	fromConfig := func(v ssa.Value) bool {
+		seen := map[ssa.Value]bool{}
+		var walk func(v ssa.Value, d int) bool
+		walk = func(v ssa.Value, d int) bool {
+			if v == nil || seen[v] || d > 8 {
+				return false
+			}
+			seen[v] = true
+			isCfg := func(t types.Type) bool {
+				n := typeName(t)
+				return n == "SimulatorConfig" || n == "*SimulatorConfig"
+			}
+			switch x := v.(type) {
+			case *ssa.Field:
+				return isCfg(x.X.Type()) || walk(x.X, d+1)
+			case *ssa.FieldAddr:
+				return isCfg(x.X.Type()) || walk(x.X, d+1)
+			case *ssa.UnOp:
+				return walk(x.X, d+1)
+			case *ssa.BinOp:
+				return walk(x.X, d+1) || walk(x.Y, d+1)
+			case *ssa.Convert:
+				return walk(x.X, d+1)
+			case *ssa.ChangeType:
+				return walk(x.X, d+1)
+			case *ssa.Phi:
+				for _, e := range x.Edges {
+					if walk(e, d+1) {
+						return true
+					}
+				}
+			}
+			return false
+		}
+		return walk(v, 0)
+	}
+	d := newDedup(r)
+	n := 0
+	var fns []*ssa.Function
+	for f := range reach {
+		fns = append(fns, f)
+	}
+	sort.Slice(fns, func(i, j int) bool { return fns[i].String() < fns[j].String() })
+	for _, f := range fns {
+		k := 0
+		for _, b := range f.Blocks {
+			for _, in := range b.Instrs {
+				var sizes []ssa.Value
+				switch x := in.(type) {
+				case *ssa.MakeSlice:
+					sizes = []ssa.Value{x.Len, x.Cap}
+				case *ssa.MakeMap:
+					sizes = []ssa.Value{x.Reserve}
+				case *ssa.MakeChan:
+					sizes = []ssa.Value{x.Size}
+				default:
+					continue
+				}
+				n++
+				k++
+				bad := false
+				for _, s := range sizes {
+					if s != nil && fromConfig(s) {
+						bad = true
+					}
+				}
+				d.add(!bad, fmt.Sprintf("%s/make#%d", f.Name(), k), w.Pos(in.Pos()), "sized from the input (or a constant)", "an allocation in "+f.Name()+" is sized from a configuration field: the assembler's cost no longer follows the size of the input, and limits the configuration check accepts make it panic")
+			}
+		}
+	}
+	d.flush()
+	if n == 0 {
+		r.undecided("sites", "-", "no allocation found in the functions the assembler reaches")
+	}
+}
+
+func init() {
+	register(&Rule{Name: "META.agree", Min: 3, Doc: "assembler and load-file readers capture name, author and strategy comments the same way", Run: ruleMetaAgree})
+}
+
+// ruleMetaAgree: the three metadata comments are read by the parser and by
+// both load-file readers.  For each of Name, Author and Strategy every store
+// must take the same part of the comment (the same offset after the keyword)
+// and treat blanks the same way (trimmed or verbatim); otherwise the same text
+// gives different warriors depending on which reader saw it.
+func ruleMetaAgree(w *World, r *RuleResult) {
+	type sig struct {
+		off     int64
+		trimmed bool
+		ok      bool
+	}
+	shape := func(v *T) sig {
+		v = stripConv(v)
+		// old + piece, piece + "\n"
+		for v.Op == "cat" {
+			a, b := stripConv(v.A[0]), stripConv(v.A[1])
+			switch {
+			case b.Op == "str" && strings.TrimSpace(b.S) == "":
+				v = a
+			case a.Op == "sel" || a.Op == "loopvar" || a.Op == "unk" || (a.Op == "str" && a.S == ""):
+				v = b
+			default:
+				return sig{}
+			}
+		}
+		s := sig{}
+		if v.Op == "call" && v.S == "strings.TrimSpace" && len(v.A) == 1 {
+			s.trimmed = true
+			v = stripConv(v.A[0])
+		}
+		if v.Op == "slice" && len(v.A) == 4 && v.A[1].IsConst() && v.A[2].Op == "none" {
+			s.off, s.ok = v.A[1].C, true
+		}
+		return s
+	}
+	type site struct {
+		fn  string
+		pos string
+		s   sig
+		raw string
+	}
+	// read off the instructions: the stores go to a local warrior as often as to one in memory
+	var shapeV func(v ssa.Value, field string, d int) sig
+	shapeV = func(v ssa.Value, field string, d int) sig {
+		if d > 6 {
+			return sig{}
+		}
+		switch x := v.(type) {
+		case *ssa.BinOp:
+			if x.Op != token.ADD {
+				return sig{}
+			}
+			if c, ok := x.Y.(*ssa.Const); ok && c.Value != nil && c.Value.Kind() == constant.String && strings.TrimSpace(constant.StringVal(c.Value)) == "" {
+				return shapeV(x.X, field, d+1)
+			}
+			// old value + piece
+			if ld, ok := x.X.(*ssa.UnOp); ok {
+				if fa, ok := ld.X.(*ssa.FieldAddr); ok && derefStruct(fa.X.Type()).Field(fa.Field).Name() == field {
+					return shapeV(x.Y, field, d+1)
+				}
+			}
+			return sig{}
+		case *ssa.Call:
+			if cal := x.Call.StaticCallee(); cal != nil && cal.Pkg != nil && cal.Pkg.Pkg.Path() == "strings" && cal.Name() == "TrimSpace" && len(x.Call.Args) == 1 {
+				s := shapeV(x.Call.Args[0], field, d+1)
+				s.trimmed = true
+				return s
+			}
+		case *ssa.Slice:
+			if c, ok := x.Low.(*ssa.Const); ok && x.High == nil {
+				// a slice of something that is already a tail of the comment: the offsets add up
+				if inner := shapeV(x.X, field, d+1); inner.ok && !inner.trimmed {
+					inner.off += c.Int64()
+					return inner
+				}
+				return sig{off: c.Int64(), ok: true}
+			}
+		case *ssa.Extract:
+			// the remainder strings.CutPrefix(comment, ";keyword") hands back is comment[len(";keyword"):]
+			if call, ok := x.Tuple.(*ssa.Call); ok && x.Index == 0 {
+				if cal := call.Call.StaticCallee(); cal != nil && cal.Pkg != nil && cal.Pkg.Pkg.Path() == "strings" && cal.Name() == "CutPrefix" && len(call.Call.Args) == 2 {
+					if c, ok := call.Call.Args[1].(*ssa.Const); ok && c.Value != nil && c.Value.Kind() == constant.String {
+						return sig{off: int64(len(constant.StringVal(c.Value))), ok: true}
+					}
+				}
+			}
+		}
+		if call, ok := v.(*ssa.Call); ok {
+			if cal := call.Call.StaticCallee(); cal != nil && cal.Pkg != nil && cal.Pkg.Pkg.Path() == "strings" && cal.Name() == "TrimPrefix" && len(call.Call.Args) == 2 {
+				if c, ok := call.Call.Args[1].(*ssa.Const); ok && c.Value != nil && c.Value.Kind() == constant.String {
+					return sig{off: int64(len(constant.StringVal(c.Value))), ok: true}
+				}
+			}
+		}
+		return sig{}
+	}
+	_ = shape
+	sites := map[string][]site{}
+	for _, fn := range libFuncs(w) {
+		for _, b := range fn.Blocks {
+			for _, in := range b.Instrs {
+				st, ok := in.(*ssa.Store)
+				if !ok {
+					continue
+				}
+				fa, ok := st.Addr.(*ssa.FieldAddr)
+				if !ok || !strings.Contains(typeName(fa.X.Type()), "WarriorData") {
+					continue
+				}
+				f := derefStruct(fa.X.Type()).Field(fa.Field).Name()
+				if f != "Name" && f != "Author" && f != "Strategy" {
+					continue
+				}
+				switch st.Val.(type) {
+				case *ssa.Const, *ssa.UnOp, *ssa.Field, *ssa.Parameter:
+					continue // a default, or a copy of another warrior's field
+				}
+				sites[f] = append(sites[f], site{fn.Name(), w.Pos(st.Pos()), shapeV(st.Val, f, 0), st.Val.String()})
+			}
+		}
+	}
+	d := newDedup(r)
+	for _, f := range []string{"Name", "Author", "Strategy"} {
+		ss := sites[f]
+		if len(ss) == 0 {
+			d.add(false, f+"/sites", "-", "", "no reader captures the "+f+" comment")
+			continue
+		}
+		ref := ss[0]
+		for _, s := range ss {
+			if !s.s.ok {
+				d.add(false, f+"/"+s.fn, s.pos, "", "the "+f+" text captured in "+s.fn+" ("+s.raw+") is not a part of the comment this rule recognises")
+				continue
+			}
+			same := s.s == ref.s
+			d.add(same, f+"/"+s.fn, s.pos, fmt.Sprintf("comment[%d:], trimmed=%v, as in every other reader", s.s.off, s.s.trimmed), fmt.Sprintf("the %s comment is captured as comment[%d:] (trimmed=%v) in %s but as comment[%d:] (trimmed=%v) in %s: the same text gives different metadata depending on the reader", f, s.s.off, s.s.trimmed, s.fn, ref.s.off, ref.s.trimmed, ref.fn))
 		}
 	}
 	d.flush()
